@@ -95,6 +95,10 @@ type Options struct {
 	// goroutine, deliver awaited events from goroutines, and keep reading variables,
 	// waiting and (un)subscribing from further goroutines meanwhile (C17)
 	Concurrent bool
+	// Linger: after a step's precondition holds, wait this long before acting, so that an
+	// observable the engine produces too EARLY (before the environment action that should
+	// enable it) is logged before that action instead of hiding behind it
+	Linger time.Duration
 }
 
 func DefaultOptions() Options {
@@ -268,6 +272,8 @@ func (r *runner) observe(tr tracing.ITrace) {
 		r.add(Rec{Ev: "cancelnode", Node: nodeId(t.Node)})
 	case bpmn.IncomingFlowProcessedTrace:
 		// bookkeeping trace of the parallel gateway: not an observable of any property
+		// (level-M fidelity validation uses it: EngineTrace)
+		r.add(Rec{Ev: "ifp", Node: elemId(t.Node)})
 	default:
 		r.add(Rec{Ev: "other", Kind: fmt.Sprintf("%T", tr)})
 	}
@@ -458,6 +464,9 @@ func Run(runIdx int, p *prog.Program, sch *Schedule, o Options) []Rec {
 					break
 				}
 				break
+			}
+			if o.Linger > 0 {
+				time.Sleep(o.Linger)
 			}
 			if !r.perform(ctx, cancel, inst, st, o, rng) {
 				aborted = true
